@@ -385,7 +385,8 @@ class Expr2Mixin:
         s.assume(z3.ForAll([k], z3.Implies(z3.And(0 <= k, k < it.n, cond),
                                            z3.And(0 <= inv(k), inv(k) < m, idx(inv(k)) == k)),
                            patterns=[inv(k)]))
-        self.last_filter = dict(idx=idx, inv=inv, m=m, cond=lambda a: sub(cond, a), n=it.n)
+        self.last_filter = dict(idx=idx, inv=inv, m=m, cond=lambda a: sub(cond, a), n=it.n, r=r)
+        self.filter_log.append(self.last_filter)
         s.lists.update({i: v for i, v in sc.lists.items() if i not in s.lists})
         yield s, s.new_list(r)
 
